@@ -62,7 +62,7 @@ func runC18(c *Ctx) {
 	for _, tn := range []string{"serverSocket", "clientSocket", "Manager", "Namespace"} {
 		fn := p.Fn("sio", tn+".OffAll")
 		st := p.Struct("sio", tn)
-		recv := fn.Params[0].Name()
+		recv := vname(fn.Params[0])
 		cleared := map[string]bool{}
 		for _, cs := range CallsDeep(fn) {
 			f := cs.Common().StaticCallee()
@@ -204,7 +204,7 @@ func runC18(c *Ctx) {
 				return false
 			}
 			k, isC := b.Y.(*ssa.Const)
-			return Term(b.X) == par.Name() && isC && k.Value == nil
+			return Term(b.X) == vname(par) && isC && k.Value == nil
 		})
 		nonNilCallers := 0
 		for _, caller := range p.SrcFuncs() {
